@@ -1,6 +1,7 @@
 package main
 
 import (
+	"strings"
 	"fmt"
 	"math"
 	"sort"
@@ -535,13 +536,13 @@ func c03Jobs(tier string) []*SeqJob {
 		}
 		jobs = append(jobs, job)
 	}
-	jobs = append(jobs, c03DefaultsJob(), c03HistoryJob(tier), c03PairsJob(tier))
+	jobs = append(jobs, c03DefaultsJob(tier), c03HistoryJob(tier), c03PairsJob(tier))
 	return jobs
 }
 
 // c03DefaultsJob: nil buckets mean the scope's default buckets; empty
 // non-nil buckets give one all-covering bucket; 64-bound linear specs.
-func c03DefaultsJob() *SeqJob {
+func c03DefaultsJob(tier string) *SeqJob {
 	type tc struct {
 		name     string
 		defaults tally.Buckets
@@ -564,6 +565,18 @@ func c03DefaultsJob() *SeqJob {
 		{"linear-64-value", nil, append(tally.ValueBuckets{}, lin64v...), lin64v, nil, false},
 		{"linear-64-duration", nil, append(tally.DurationBuckets{}, lin64d...), nil, lin64d, true},
 	}
+	// every number of bounds from 1 to N, handed over in descending order (size sweep: word widths, fixed-size
+	// scratch space and the like live at particular counts)
+	for n := 1; n <= tierInt(tier, 80, 260); n++ {
+		lv := tally.MustMakeLinearValueBuckets(-8, 0.25, n)
+		ld := tally.MustMakeLinearDurationBuckets(-5*time.Millisecond, time.Millisecond, n)
+		rv, rd := make(tally.ValueBuckets, n), make(tally.DurationBuckets, n)
+		for i := range lv {
+			rv[n-1-i], rd[n-1-i] = lv[i], ld[i]
+		}
+		cases = append(cases, tc{fmt.Sprintf("descending-%d-value", n), nil, rv, append([]float64{}, rv...), nil, false},
+			tc{fmt.Sprintf("descending-%d-duration", n), nil, rd, nil, append([]time.Duration{}, rd...), true})
+	}
 	run := func(c tc, path histPath) (string, string, int) {
 		e := newHistEnv(path, c.defaults)
 		if c.dur {
@@ -583,7 +596,9 @@ func c03DefaultsJob() *SeqJob {
 					return a, b
 				})
 				ops := []string{c.name, path.String()}
-				ctx.Alphabet(c.name)
+				if !strings.HasPrefix(c.name, "descending-") {
+					ctx.Alphabet(c.name)
+				}
 				ctx.Case(steps, true, func() string { return fmt.Sprint(ops) })
 				ctx.State(fmt.Sprint(ops))
 				if cl != "" {
@@ -592,6 +607,7 @@ func c03DefaultsJob() *SeqJob {
 				}
 			}
 		}
+		ctx.Alphabet(fmt.Sprintf("every number of bounds from 1 to %d, value and duration, in descending order", tierInt(tier, 80, 260)))
 		ctx.DepthDone(1)
 	}
 	job.Replay = func(ops []string) (string, string) {
